@@ -68,9 +68,12 @@ macro_rules! patch_attributes {
 /// computed.
 ///
 /// This function fails fast, so if any phase of patching fails, we skip any remaining phases.
+/// The only exception is attribute patching, which is always performed, even if errors were reported during parsing.
+/// Otherwise `allow` attributes wouldn't be understood, and the lints that they allow (which can already be reported
+/// during parsing) would stop being suppressed just because an unrelated error was reported alongside them.
 pub unsafe fn patch_ast(compilation_state: &mut CompilationState) {
     let attribute_patcher = patch_attributes!("", Allow, Compress, Deprecated, Oneway, SlicedFormat);
-    compilation_state.apply_unsafe(attribute_patcher);
+    attribute_patcher(compilation_state);
     compilation_state.apply_unsafe(type_ref_patcher::patch_ast);
     compilation_state.apply_unsafe(comment_link_patcher::patch_ast);
 }
